@@ -177,10 +177,9 @@ class H:
         if lo == hi:
             return int(lo)
         if self.sym:
-            v = z3.Int(name)
-            self.ctx.inputs[name] = v
-            self.ctx.side.append(z3.And(v >= int(lo), v <= int(hi)))
-            return self.ctx.choose_int(v)
+            k = int(lo) + self.ctx.choose_free(int(hi) - int(lo) + 1)
+            self.ctx.free_choices[name] = k
+            return k
         try:
             return int(round(self.values[name]))
         except KeyError:
@@ -506,6 +505,7 @@ def _model_inputs(ctx, mv, ufnames):
             vals[name] = mv.value(c)
         except Exception:  # noqa: BLE001
             vals[name] = 0.0
+    vals.update({k: float(v) for k, v in ctx.free_choices.items()})
     tables = {n: mv.uf_table(n) for n in ufnames}
     return vals, tables
 
